@@ -131,6 +131,7 @@ def translate(regs, tx, ty):
 
 class C08(Monitor):
     prop = "C08"
+    quick_cases = 1500
     rule = ("abstract tool paths (moves, Z changes, extrusions, E-only retract cycles; no arcs) on a 0.0254 mm grid with destinations "
             ">= 0.1 mm from region borders, rendered in absolute millimetres and again with one re-encoding applied from a random "
             "step: inches (G20), relative (G91), G92 X/Y/Z re-basing, translation of path and regions by a grid vector; oracle: per "
@@ -138,8 +139,6 @@ class C08(Monitor):
             "final position; non-trivial = a pair in which an episode opens after the re-encoding point; distinct by digest of the pair")
     assumptions = ["both runs use the same reference printer model", "G90 does not influence the extruder (E stays absolute)"]
 
-    def budget(self, tier):
-        return dict(workers=4, cases=500) if tier == "quick" else dict(workers=16, cases=0, secs=180, timeout=1500)
 
     def gen_case(self, rnd, tier, k):
         regs = [r for r in gen_regions(rnd, rnd.choice([1, 1, 2, 3, 4])) if not (r[0] == "rect" and min(r[1], r[3]) < 0.5)]
